@@ -906,7 +906,7 @@ def c09(tier, seed):
     scs += known_scenarios("C09", "stroke")
     # a dash array whose total is not positive paints nothing (zeros, entries cancelling out, negative totals)
     scs += drive("C09", "dash-nonpos", seed, 300 if th else 50)
-    scs += dash_drift_scenarios(v, seed, 400000 if th else 30000, 600 if th else 60)
+    scs += dash_drift_scenarios(v, seed, 200000 if th else 30000, 600 if th else 60)
     v.exhaustive = th
     simple_validate("C09", v, scs, "all", "Trace_Dash", sigfn=stroke_sig, timeout=3000)
     v.samples = [scs[0], scs[-1]]
